@@ -80,11 +80,15 @@ package boltz
 //@   pure
 //@   ensures result != nil && fresh(result)
 
-// a child-store change also produces exactly one event on the parent store; a store without parent produces none
+// ecsLoaded[state]: the state's final state has been re-read from the store after the write (loadFinalState)
+//@ ghost ecsLoaded : (Array Int Bool) private
+// a child-store change also produces exactly one event on the parent store; a store without parent produces none; the
+// parent's state is derived from the child's, so the child's final state must have been re-read first
 //@ func (*BaseStore).fireParentEvent
 //@   props C08 C07
 //@   errflow
 //@   nosafety
+//@   requires[final-state-loaded-first] ecsLoaded[changeFlow]
 //@   modifies *, ocCnt, ocFn, ocRecv
 //@   ensures[no-parent-no-event] old(store.parent) == nil ==> result == nil && ocSame()
 //@   ensures[one-parent-event] old(store.parent) != nil && result == nil ==> ocCnt[ctxTx[ecsCtx[changeFlow]]] == old(ocCnt[ctxTx[ecsCtx[changeFlow]]]) + 1 && fresh(sel(ocRecv[ctxTx[ecsCtx[changeFlow]]], old(ocCnt[ctxTx[ecsCtx[changeFlow]]]))) && ocOthersSame(ctxTx[ecsCtx[changeFlow]])
@@ -167,8 +171,8 @@ package boltz
 //@   nosafety
 //@   requires[after-commit] committed
 //@   modifies *, ppN, ppWho, ppState
-//@   ensures[every-constraint-once-in-order] ppN == old(ppN) + cowLen(old(self.store.entityConstraints)) && forall(i, 0 <= i && i < cowLen(old(self.store.entityConstraints)) ==> sel(ppWho, old(ppN) + i) == cowAt(old(self.store.entityConstraints), i) && sel(ppState, old(ppN) + i) == ref(self))
-//@   invariant 1: ppN == old(ppN) + rangeindex + 1 && forall(i, 0 <= i && i <= rangeindex ==> sel(ppWho, old(ppN) + i) == cowAt(old(self.store.entityConstraints), i) && sel(ppState, old(ppN) + i) == ref(self)) && forall(i, 0 <= i && i < old(ppN) ==> sel(ppWho, i) == sel(old(ppWho), i) && sel(ppState, i) == sel(old(ppState), i))
+//@   ensures[every-constraint-once-in-order] ppN == old(ppN) + old(cowLen[self.store.entityConstraints]) && forall(i, 0 <= i && i < old(cowLen[self.store.entityConstraints]) ==> sel(ppWho, old(ppN) + i) == sel(old(cowAt[self.store.entityConstraints]), i) && sel(ppState, old(ppN) + i) == ref(self))
+//@   invariant 1: ppN == old(ppN) + rangeindex + 1 && forall(i, 0 <= i && i <= rangeindex ==> sel(ppWho, old(ppN) + i) == sel(old(cowAt[self.store.entityConstraints]), i) && sel(ppState, old(ppN) + i) == ref(self)) && forall(i, 0 <= i && i < old(ppN) ==> sel(ppWho, i) == sel(old(ppWho), i) && sel(ppState, i) == sel(old(ppState), i))
 //@ immutable H.boltz.EntityChangeState.store
 //@ immutable H.boltz.EntityChangeState.FinalState
 
@@ -244,3 +248,36 @@ package boltz
 //@   ensures[bound] self.tx == tx && result != nil
 //@   ensures[commit-handler-registered-once] tx != nil ==> regOne(tx, fnid("(*github.com/openziti/storage/boltz.mutateContext).handleCommit$bound"), self) && ocOthersSame(tx)
 //@   ensures[no-transaction-no-registration] tx == nil ==> ocSame()
+
+// ---- registration styles: every Add* appends exactly one adapter that listens for the given change type and all
+// the further ones (adTypes/adLen: the adapter's change-type list, a view of its field) ----
+//@ ghost adLen : (Array Int Int) dispatch private
+//@ ghost adTypes : (Array Int (Array Int Int)) dispatch private
+//@ view adLen[*untypedEventListenerWrapper] = len(self.changeTypes)
+//@ view adTypes[*untypedEventListenerWrapper] = arr(self.changeTypes)
+//@ view adLen[*entityFunctionListenerAdapter] = len(self.changeTypes)
+//@ view adTypes[*entityFunctionListenerAdapter] = arr(self.changeTypes)
+//@ view adLen[*entityListenerAdapter] = len(self.changeTypes)
+//@ view adTypes[*entityListenerAdapter] = arr(self.changeTypes)
+//@ define appended(store) = mkiface(sel(cowTyp[store.entityConstraints], old(cowLen[store.entityConstraints])), sel(cowAt[store.entityConstraints], old(cowLen[store.entityConstraints])))
+//@ define listensFor(A, changeType, changeTypes) = adLen[A] == 1 + len(changeTypes) && sel(adTypes[A], 0) == changeType && forall(i, 0 <= i && i < len(changeTypes) ==> sel(adTypes[A], i + 1) == changeTypes[i])
+//@ func (*BaseStore).AddListener
+//@   props C08
+//@   nosafety
+//@   modifies cowLen[store.entityConstraints], cowAt[store.entityConstraints], cowTyp[store.entityConstraints]
+//@   ensures[one-adapter-for-every-given-type] cowLen[store.entityConstraints] == old(cowLen[store.entityConstraints]) + 1 && istype(appended(store), *untypedEventListenerWrapper) && listensFor(appended(store), changeType, changeTypes)
+//@ func (*BaseStore).AddEntityIdListener
+//@   props C08
+//@   nosafety
+//@   modifies cowLen[store.entityConstraints], cowAt[store.entityConstraints], cowTyp[store.entityConstraints]
+//@   ensures[one-adapter-for-every-given-type] cowLen[store.entityConstraints] == old(cowLen[store.entityConstraints]) + 1 && istype(appended(store), *untypedEventListenerWrapper) && listensFor(appended(store), changeType, changeTypes)
+//@ func (*BaseStore).AddEntityEventListenerF
+//@   props C08
+//@   nosafety
+//@   modifies cowLen[store.entityConstraints], cowAt[store.entityConstraints], cowTyp[store.entityConstraints]
+//@   ensures[one-adapter-for-every-given-type] cowLen[store.entityConstraints] == old(cowLen[store.entityConstraints]) + 1 && istype(appended(store), *entityFunctionListenerAdapter) && listensFor(appended(store), changeType, changeTypes)
+//@ func (*BaseStore).AddEntityEventListener
+//@   props C08
+//@   nosafety
+//@   modifies cowLen[store.entityConstraints], cowAt[store.entityConstraints], cowTyp[store.entityConstraints]
+//@   ensures[one-adapter-for-every-given-type] cowLen[store.entityConstraints] == old(cowLen[store.entityConstraints]) + 1 && istype(appended(store), *entityListenerAdapter) && listensFor(appended(store), changeType, changeTypes)
